@@ -328,14 +328,64 @@ DoAddRel ==
           /\ G' = AddRel(G, s, d, t, p)
           /\ H([op |-> "CreateRel", s |-> s, d |-> d, t |-> t, p |-> p])
     /\ UNCHANGED q
+\* ---- C02 histories: mutators of the logical graph and physical steps, in any order
+HistOn == Hist /\ ~Asked
+DoDelNode == HistOn /\ \E h \in LiveN(G) : G' = DelNode(G, h) /\ H([op |-> "DeleteNode", n |-> h]) /\ UNCHANGED q
+DoDelRel == HistOn /\ \E r \in LiveR(G) : G' = DelRel(G, r) /\ H([op |-> "DeleteRel", r |-> r]) /\ UNCHANGED q
+DoSetNodeProp ==
+    HistOn /\ \E h \in LiveN(G), v \in ValSet(PSet) \ {VNull} :
+        /\ G.nodes[h].props.p # v
+        /\ G' = [G EXCEPT !.nodes[h].props.p = v] /\ H([op |-> "SetNodeProp", n |-> h, key |-> "p", v |-> v]) /\ UNCHANGED q
+DoRemoveNodeProp ==
+    HistOn /\ \E h \in LiveN(G) :
+        /\ G.nodes[h].props.p # VNull
+        /\ G' = [G EXCEPT !.nodes[h].props.p = VNull] /\ H([op |-> "RemoveNodeProp", n |-> h, key |-> "p"]) /\ UNCHANGED q
+DoSetRelProp ==
+    HistOn /\ \E r \in LiveR(G), v \in ValSet(RSet) \ {VNull} :
+        /\ G.rels[r].props.p # v
+        /\ G' = [G EXCEPT !.rels[r].props.p = v] /\ H([op |-> "SetRelProp", r |-> r, v |-> v]) /\ UNCHANGED q
+DoAddLabel ==
+    HistOn /\ \E h \in LiveN(G), lb \in {"A", "B"} :
+        /\ lb \notin G.nodes[h].labels /\ (G.nodes[h].labels \cup {lb}) \in LabelSets
+        /\ G' = [G EXCEPT !.nodes[h].labels = @ \cup {lb}] /\ H([op |-> "AddLabel", n |-> h, label |-> lb]) /\ UNCHANGED q
+DoRemoveLabel ==
+    HistOn /\ \E h \in LiveN(G), lb \in {"A", "B"} :
+        /\ lb \in G.nodes[h].labels /\ (G.nodes[h].labels \ {lb}) \in LabelSets
+        /\ G' = [G EXCEPT !.nodes[h].labels = @ \ {lb}] /\ H([op |-> "RemoveLabel", n |-> h, label |-> lb]) /\ UNCHANGED q
+\* physical steps (no logical effect; at most two of each per history, never twice in a row)
+Count(op) == Cardinality({i \in DOMAIN hist : hist[i].op = op})
+LastOp == IF hist = <<>> THEN "" ELSE hist[Len(hist)].op
+DoCompact == HistOn /\ Count("Compact") < 2 /\ LastOp # "Compact" /\ H([op |-> "Compact"]) /\ UNCHANGED <<G, q>>
+DoCreateIndex == HistOn /\ Count("CreateIndex") < 1 /\ H([op |-> "CreateIndex"]) /\ UNCHANGED <<G, q>>
+\* histories add nodes / relationships in any order (no symmetry cut, relationships before further nodes allowed)
+DoAddNodeH ==
+    /\ HistOn /\ Len(G.nodes) < MaxNodes
+    /\ \E ls \in LabelSets, p \in ValSet(PSet), qq \in ValSet(QSet) :
+          G' = AddNode(G, ls, p, qq) /\ H([op |-> "CreateNode", labels |-> LabSeq(ls), p |-> p, q |-> qq])
+    /\ UNCHANGED q
+DoAddRelH ==
+    /\ HistOn /\ Len(G.rels) < MaxRels
+    /\ \E s \in LiveN(G), d \in LiveN(G), t \in Types, p \in ValSet(RSet) :
+          G' = AddRel(G, s, d, t, p) /\ H([op |-> "CreateRel", s |-> s, d |-> d, t |-> t, p |-> p])
+    /\ UNCHANGED q
+
+\* one connected MATCH, plain RETURN: the answer on k disjoint copies of the graph is k times the answer on one
+Linear(x) ==
+    /\ Len(x.parts) = 1
+    /\ LET cs == x.parts[1].clauses IN
+       /\ Len(cs) = 2 /\ cs[1].c = "match" /\ ~cs[1].opt /\ Len(cs[1].paths) = 1 /\ cs[1].paths[1].sp = "none"
+       /\ cs[2].c = "return" /\ ~cs[2].distinct /\ ~HasWindow(cs[2]) /\ cs[2].order = <<>>
+       /\ \A i \in DOMAIN cs[2].items : ~IsAgg(cs[2].items[i].e)
 Ask ==
     /\ ~Asked /\ G.nodes # <<>>
-    /\ \E x \in Fam(G) : q' = x /\ H([op |-> "Query", q |-> x])
+    /\ \E x \in Fam(G) : q' = x /\ H(IF Hist THEN [op |-> "Query", q |-> x, lin |-> Linear(x)] ELSE [op |-> "Query", q |-> x])
     /\ UNCHANGED G
-Next == DoAddNode \/ DoAddRel \/ Ask
+Next == \/ (~Hist /\ (DoAddNode \/ DoAddRel)) \/ Ask
+        \/ DoAddNodeH \/ DoAddRelH \/ DoDelNode \/ DoDelRel \/ DoSetNodeProp \/ DoRemoveNodeProp \/ DoSetRelProp
+        \/ DoAddLabel \/ DoRemoveLabel \/ DoCompact \/ DoCreateIndex
 Spec == Init /\ [][Next]_vars
 
-View == <<G, q>>
+View == <<G, q, IF Hist THEN [i \in DOMAIN hist |-> hist[i].op \in {"Compact", "CreateIndex", "DeleteNode", "DeleteRel"}] ELSE <<>>>>
 Bound == Len(hist) <= MaxHist
 EmitAsk == (q' # NoQ) => PrintT(<<"SCRIPT", ToJson(hist')>>)
 SimEmit == Asked => PrintT(<<"SCRIPT", ToJson(hist)>>)
